@@ -187,6 +187,7 @@ class TestRecording:
                 "unitc": 1,
                 "k": 100,
                 "pair": False,
+                "millis": False,
                 "splitting": True,
                 "wl": {"maxv": maxv, "maxc": maxv, "autosplit": autosplit, "diti": diti},
                 "flags": {"records": True, "robot": dev != "base", "comp": False, "norm": False, "file": False, "fullhist": False},
